@@ -996,22 +996,6 @@ theorem nodup_insert (m : Items) (h : KeysNodup m) (k : Nat) (s : Slot) : KeysNo
 theorem nodup_sublist (m m' : Items) (h : KeysNodup m) (hs : m'.Sublist m) : KeysNodup m' :=
   List.Nodup.sublist (List.Sublist.map _ hs) h
 
-theorem perm_orderedInsert {α : Type} (le : α → α → Bool) (x : α) (l : List α) :
-    (orderedInsert le x l).Perm (x :: l) := by
-  induction l with
-  | nil => exact List.Perm.refl _
-  | cons y ys ih =>
-    simp only [orderedInsert]
-    by_cases h : le x y
-    · simp [h]
-    · simp only [h, Bool.false_eq_true, ↓reduceIte]
-      exact (List.Perm.cons y ih).trans (List.Perm.swap x y ys)
-
-theorem perm_stableSort {α : Type} (le : α → α → Bool) (l : List α) : (stableSort le l).Perm l := by
-  induction l with
-  | nil => exact List.Perm.refl _
-  | cons x xs ih => exact (perm_orderedInsert le x _).trans (List.Perm.cons x ih)
-
 theorem nodup_sort (le : Nat × Slot → Nat × Slot → Bool) (m : Items) (h : KeysNodup m) :
     KeysNodup (stableSort le m) :=
   ((perm_stableSort le m).map _).nodup_iff.2 h
@@ -1102,5 +1086,105 @@ theorem T16_keys_unique (fx : Fix) (d : Dialect) (ops : List Op) (m : Items) (h 
   | cons op ops ih => exact ih _ (nodup_step fx d m h op)
 
 example : KeysNodup [] ∧ KeysNodup [(0, .placeholder)] := by simp [KeysNodup]
+
+/-! ## `sort_values_by` / `sort_by_key` are stable sorts
+
+The model sorts with `stableSort` (insertion sort).  It returns a permutation, ordered by the
+comparator, in which the members of every tie class (elements that are pairwise `le`, e.g. all
+entries with one sort key) keep their relative order — the three properties that determine the
+result of a stable sort. -/
+
+/-- stability, general form: filtering a tie class out of the sorted list gives the same sequence as
+    filtering it out of the input -/
+theorem T16_sortby_stable {α : Type} (le : α → α → Bool) (p : α → Bool)
+    (hp : ∀ a z, p a = true → p z = true → le a z = true) (l : List α) :
+    (stableSort le l).filter p = l.filter p := filter_stableSort le p hp l
+
+theorem optLe_refl (o : Option Nat) : optLe o o = true := by
+  cases o <;> simp [optLe]
+
+theorem optLe_total (a b : Option Nat) : optLe a b = true ∨ optLe b a = true := by
+  cases a <;> cases b <;> simp [optLe]; omega
+
+theorem optLe_trans (a b c : Option Nat) (h1 : optLe a b = true) (h2 : optLe b c = true) : optLe a c = true := by
+  cases a <;> cases b <;> cases c <;> simp_all [optLe]; omega
+
+/-- **Table::sort_values_by** (value-only comparator of the harness): entries with the same sort key
+    (the same integer, or no integer: placeholders) keep their relative order; the result is a
+    permutation of the entries and is ordered by the comparator. -/
+theorem T16_sortby_stable_table (fx : Fix) (m : Items) (key : Option Nat) :
+    ((step fx .table m .sortby).2.filter fun e => e.2.asInt == key) = (m.filter fun e => e.2.asInt == key) ∧
+    (step fx .table m .sortby).2.Perm m ∧
+    (step fx .table m .sortby).2.Pairwise (fun a b => leTable a b = true) := by
+  refine ⟨?_, perm_stableSort _ m, ?_⟩
+  · apply T16_sortby_stable
+    intro a z ha hz
+    simp only [beq_iff_eq] at ha hz
+    simp [leTable, ha, hz, optLe_refl]
+  · exact sorted_stableSort leTable (fun a b => optLe_total _ _) (fun a b c h1 h2 => optLe_trans _ _ _ h2 h1) m
+
+/-- the sort class of an entry under `InlineTable::sort_values_by`: placeholders, or values by integer -/
+def inlineClass (e : Nat × Slot) : Option (Option Nat) :=
+  match e.2 with
+  | .placeholder => none
+  | .item _ => some e.2.asInt
+
+theorem leInline_total (a b : Nat × Slot) : leInline a b = true ∨ leInline b a = true := by
+  obtain ⟨ka, sa⟩ := a
+  obtain ⟨kb, sb⟩ := b
+  cases sa <;> cases sb <;> simp [leInline]
+  exact optLe_total _ _
+
+theorem leInline_trans (a b c : Nat × Slot) (h1 : leInline a b = true) (h2 : leInline b c = true) :
+    leInline a c = true := by
+  obtain ⟨ka, sa⟩ := a
+  obtain ⟨kb, sb⟩ := b
+  obtain ⟨kc, sc⟩ := c
+  cases sa <;> cases sb <;> cases sc <;> simp_all [leInline]
+  exact optLe_trans _ _ _ h2 h1
+
+/-- **InlineTable::sort_values_by**: the same three properties -/
+theorem T16_sortby_stable_inline (fx : Fix) (m : Items) (cls : Option (Option Nat)) :
+    ((step fx .inline m .sortby).2.filter fun e => inlineClass e == cls) = (m.filter fun e => inlineClass e == cls) ∧
+    (step fx .inline m .sortby).2.Perm m ∧
+    (step fx .inline m .sortby).2.Pairwise (fun a b => leInline a b = true) := by
+  refine ⟨?_, perm_stableSort _ m, sorted_stableSort leInline leInline_total leInline_trans m⟩
+  apply T16_sortby_stable
+  rintro ⟨ka, sa⟩ ⟨kz, sz⟩ ha hz
+  simp only [beq_iff_eq] at ha hz
+  cases sa with
+  | placeholder => cases sz <;> simp [leInline]
+  | item va =>
+    cases sz with
+    | placeholder =>
+      simp only [inlineClass] at ha hz
+      rw [← hz] at ha
+      cases ha
+    | item vz =>
+      simp only [inlineClass] at ha hz
+      have : (Slot.item va).asInt = (Slot.item vz).asInt := by
+        rw [← hz] at ha
+        exact Option.some.inj ha
+      simp [leInline, this, optLe_refl]
+
+/-- **Array::sort_by_key**: equal elements keep their relative order (visible through their
+    decoration), the result is a permutation and ascending -/
+theorem T16_sortby_stable_array (a : Arr) (n : Nat) :
+    ((arrStep a .sortby).2.filter fun e => e.1 == n) = (a.filter fun e => e.1 == n) ∧
+    (arrStep a .sortby).2.Perm a ∧
+    (arrStep a .sortby).2.Pairwise (fun x y => x.1 ≤ y.1) := by
+  refine ⟨?_, perm_stableSort _ a, ?_⟩
+  · apply T16_sortby_stable
+    intro x z hx hz
+    simp only [beq_iff_eq] at hx hz
+    simp [hx, hz]
+  · have := sorted_stableSort (fun x y : Nat × Decor => decide (x.1 ≤ y.1))
+      (fun x y => by simp; omega) (fun x y z h1 h2 => by simp at *; omega) a
+    simpa [arrStep] using this
+
+/-- 24 entries k00..k23 with value i % 3: the sort by value keeps k02, k05, …, k23 in that order -/
+example :
+    ((step current .table ((List.range 24).map fun i => (4 + i, Slot.item (.int (i % 3)))) .sortby).2.take 8).map (·.1) =
+      [6, 9, 12, 15, 18, 21, 24, 27] := by decide
 
 end TomlVerif.Props.C16
